@@ -49,6 +49,9 @@ PROPS = {
     "C15": dict(engine="vtime", level="exploration",
                 quick=dict(batches=48, units=300, wall=75),
                 thorough=dict(batches=480, units=600, wall=1500)),
+    "C20": dict(engine="foreign", level="fault_enumeration",
+                quick=dict(batches=7, units=1, wall=85),
+                thorough=dict(batches=14, units=1, wall=1500)),
     "C19": dict(engine="sysfs", level="fault_enumeration",
                 quick=dict(batches=48, units=6, wall=75),
                 thorough=dict(batches=480, units=12, wall=1500)),
@@ -116,7 +119,11 @@ class Master:
         engine_name = engine_name or self.engine_name
         bseed = H(self.seed, self.prop, "batch", engine_name, b)
         rng = random.Random(bseed)
-        boot = load_engine(engine_name).boot_config(rng)
+        eng_ = load_engine(engine_name)
+        if hasattr(eng_, "boot_config_for"):
+            boot = eng_.boot_config_for(b)
+        else:
+            boot = eng_.boot_config(rng)
         return {
             "mode": "batch", "engine": engine_name,
             "property": self.prop, "tier": self.tier, "scratch": self.tree,
